@@ -885,6 +885,34 @@ def run_align(ctx, cases):
 
 # ------------------------------------------------------------------------------------------------
 # stream: mod_grad_axis / flip_grad_axis (implementation, oracle, and the store model of Model/ModAxis.v)
+def gen_bridged_pair(rng, sysd, ch):
+    """two consecutive blocks holding the two halves of one gradient on channel ch"""
+    r = sysd['raster']
+    v = rng.choice([-1, 1]) * rng.uniform(1e3, 5e5)
+    n1 = min_ramp(v, r) + rng.randint(0, 3)
+    n2 = min_ramp(v, r) + rng.randint(0, 3)
+    if rng.random() < 0.6:
+        pa = rng.randint(0, 4)            # plateau samples before the cut
+        pb = rng.randint(0, 4)
+        ka = [0, n1] + ([n1 + pa] if pa else [])
+        kb = ([0, pb] if pb else [0]) + [pb + n2]
+        a = {'kind': 'ext', 'ch': ch, 'times': [k * r for k in ka], 'amps': [0.0, v] + ([v] if pa else []),
+             'delay': rng.choice([0, 0, 2]) * r}
+        b = {'kind': 'ext', 'ch': ch, 'times': [k * r for k in kb], 'amps': ([v, v] if pb else [v]) + [0.0], 'delay': 0.0}
+    else:
+        n1, n2 = max(n1, 2), max(n2, 2)
+        a = {'kind': 'arb', 'ch': ch, 'wf': [v * (i + 0.5) / n1 for i in range(n1)], 'first': 0.0, 'last': v,
+             'delay': rng.choice([0, 0, 2]) * r}
+        b = {'kind': 'arb', 'ch': ch, 'wf': [v * (1 - (i + 0.5) / n2) for i in range(n2)], 'first': v, 'last': 0.0,
+             'delay': 0.0}
+    a['bridge'] = 'first-half'
+    blk_a, blk_b = [a], [b]
+    if rng.random() < 0.5:
+        other = rng.choice([c_ for c_ in gl.CHN if c_ != ch])
+        blk_b.append(dict(gen_trap(rng, sysd), ch=other))
+    return [blk_a, blk_b]
+
+
 def gen_modaxis_cases(rng, n):
     cs = []
     for i in range(n):
@@ -959,7 +987,16 @@ def gen_modaxis_cases(rng, n):
                 blk_b = [dict(g, ch=b_ax)] + ([dict(rng.choice(third))] if third and rng.random() < 0.5 else [])
                 blocks.insert(rng.randint(0, len(blocks)), blk_a)
                 blocks.insert(rng.randint(0, len(blocks)), blk_b)
+        # gradients connected over a block boundary: the first part ends away from zero at the end of its block
+        # (last != 0), the second part starts there with zero delay (first != 0); either sign
+        bridged = 0
+        for _ in range(rng.choice([0, 0, 1, 1, 2])):
+            pos = [i for i in range(len(blocks) + 1)
+                   if i == 0 or not any(e.get('bridge') == 'first-half' for e in blocks[i - 1])]
+            blocks[rng.choice(pos):0] = gen_bridged_pair(rng, sysd, axis if rng.random() < 0.7 else rng.choice(gl.CHN))
+            bridged += 1
         cs.append({'stream': 'modaxis', 'sys': sysd, 'blocks': blocks, 'axis': axis, 'flip': flip, 'plant': plant,
+                   'bridged': bridged,
                    'mod': -1 if flip else rng.choice([-1, 2, 0.5, -0.25, 0, 3, 1]), 'cache': rng.random() < 0.6,
                    'warm': rng.random() < 0.7, 'twice': rng.random() < 0.2})
     return cs
@@ -1148,6 +1185,56 @@ def _run_modaxis(ctx, cases, pp, model_jobs):
                 elif not gl.same_value(v0, v1):
                     bad = ('C18/mod-axis-touches-other-event', {'block': i + 1, 'attribute': name})
                     break
+            if bad:
+                break
+        if bad:
+            ctx.fail(bad[0], c, bad[1])
+            continue
+        if shared or err is not None:
+            continue
+        if c.get('bridged'):
+            ctx.count('modaxis.with_gradients_connected_over_a_block_boundary')
+        # every field of the decoded event on the axis equals scale_grad of the original decoded event
+        for i, (b0, b1) in enumerate(zip(before, after)):
+            v0, v1 = getattr(b0, 'g' + c['axis'], None), getattr(b1, 'g' + c['axis'], None)
+            if v0 is None or bad:
+                continue
+            ref = pp.scale_grad(v0, float(m))
+            for name in sorted(vars(ref)):
+                a, b = getattr(ref, name), getattr(v1, name, None)
+                if isinstance(a, (str, int)) and not isinstance(a, bool) or a is None:
+                    ok = a == b
+                else:
+                    xa, xb = np.atleast_1d(np.asarray(a, dtype=float)), np.atleast_1d(np.asarray(b, dtype=float))
+                    tol = 1e-9 * max(1.0, float(np.max(np.abs(xa))) if xa.size else 1.0) + 1e-7 * float(amp_scale_of(v0)) * abs(float(m)) * (name == 'waveform')
+                    ok = xa.shape == xb.shape and bool(np.all(np.abs(xa - xb) <= tol))
+                if not ok:
+                    bad = ('C18/mod-axis-differs-from-scale-grad-' + name,
+                           {'block': i + 1, 'scale_grad': repr(a)[:80], 'decoded_after': repr(b)[:80], 'factor': float(m)})
+                    break
+        if bad:
+            ctx.fail(bad[0], c, bad[1])
+            continue
+        # the rescaled sequence must accept its own blocks again (block-boundary continuity uses first / last)
+        for i in range(nb):
+            try:
+                seq.set_block(i + 1, after[i])
+            except Exception as e:
+                bad = ('C18/mod-axis-set-block-of-own-block-raises', {'block': i + 1, 'exception': repr(e)[:200]})
+                break
+            again = seq.get_block(i + 1)
+            for ch in gl.CHN:
+                g0, g1 = getattr(after[i], 'g' + ch, None), getattr(again, 'g' + ch, None)
+                if (g0 is None) != (g1 is None):
+                    bad = ('C18/mod-axis-set-block-changes-block', {'block': i + 1, 'channel': ch})
+                    break
+                if g0 is not None:
+                    p0, p1 = gl.corners(g0, raster), gl.corners(g1, raster)
+                    sc = amp_scale_of(g0)
+                    if len(p0) != len(p1) or any(not gl.close(x[1], y[1], sc * 1000) or abs(x[0] - y[0]) > Fraction(1, 10 ** 12)
+                                                 for x, y in zip(p0, p1)):
+                        bad = ('C18/mod-axis-set-block-changes-block', {'block': i + 1, 'channel': ch})
+                        break
             if bad:
                 break
         if bad:
